@@ -21,6 +21,7 @@ Print Assumptions C05_outcome.
 Theorem C05_quiet_is_silent : forall p v s line,
   handle false p v s line = handle false (mkPol (p_raise p) (p_collect p) (p_stop p) (p_fail p) (p_print p) (negb (p_quiet p))) v s line.
 Proof. exact quiet_is_silent. Qed.
+Print Assumptions C05_quiet_is_silent.
 
 Theorem C05_monotone : forall q p v s line s', (handle q p v s line = Done s' \/ handle q p v s line = Raised s' \/ handle q p v s line = Crashed s') ->
   (h_valid s = false -> h_valid s' = false) /\ (h_stopped s = true -> h_stopped s' = true) /\
@@ -31,9 +32,11 @@ Print Assumptions C05_monotone.
 (** a component with an error does not match (validation-mode without 'match') *)
 Theorem C05_vote : forall raised pending child, (raised || pending) = true -> expr_vote false raised pending child = false.
 Proof. exact error_votes_false. Qed.
+Print Assumptions C05_vote.
 
 Theorem C05_vote_no_error : forall mm child, expr_vote mm false false child = child.
 Proof. exact no_error_votes_child. Qed.
+Print Assumptions C05_vote_no_error.
 
 (** D5 (fixed in /repo): with the switch on, a policy containing 'quiet' crashes before any effect *)
 Theorem C05_quiet_refuted :
@@ -42,6 +45,7 @@ Theorem C05_quiet_refuted :
   handle false (mkPol false true false false false true) (mkVm None None None None None) (mkHs [] false true []) 2
     = Done (mkHs [2] false true []).
 Proof. exact quiet_crash_refuted. Qed.
+Print Assumptions C05_quiet_refuted.
 
 Example C05_nonvacuous :
   handle_all false (mkPol false true false true true false) (mkVm None (Some false) (Some true) None None) (mkHs [] false true []) [2; 2]
